@@ -449,13 +449,26 @@ class M2mCheck(object):
         if hub:
             init = [[k, 'hub'] for k in A[:r.choice([31, 32, 33, 40])]] + [['a', v] for v in B[3:3 + r.choice([31, 32, 36])]]
             return {'kind': 'm2m', 'init': init, 'ops': ops[:25], 'hub': True}
-        return {'kind': 'm2m', 'init': [[r.choice(A), r.choice(B)] for _ in range(r.choice([0, 0, 2, 4]))], 'ops': ops}
+        return {'kind': 'm2m', 'init': [[r.choice(A), r.choice(B)] for _ in range(r.choice([0, 0, 2, 4]))], 'ops': ops,
+                'only_inverse_kept': r.random() < 0.15}
 
     def run(self, h, stats=None):
         du = common.load('dictutils')
         init = [(lf(k), lf(v)) for k, v in h.get('init', [])]
         try:
             m = du.ManyToMany(init) if init else du.ManyToMany()
+            if h.get('only_inverse_kept'):
+                # the caller keeps nothing but the inverse (index = ManyToMany(pairs).inv): the pair must stay whole
+                import gc
+                kept = m.inv
+                del m
+                gc.collect()
+                m = kept.inv
+                if m is None or m.inv is not kept:
+                    return Failure(-1, 'inv.inv', 'after the caller dropped its reference to the forward object, inverse.inv is %r'
+                                   % (m,), ['init'])
+                if stats is not None:
+                    stats.count('m2m_histories_with_only_the_inverse_kept')
         except Exception as e:
             return Failure(-1, 'raised[%s]' % type(e).__name__, repr(e), ['init'])
         P = set(init)
